@@ -2,6 +2,7 @@ package props
 
 import (
 	"fmt"
+	"strconv"
 	"strings"
 	"time"
 
@@ -547,9 +548,21 @@ func init() {
 				long := strings.Repeat([]string{"a", "é", "<", `\"`, `\\`, gen.U("d83d")}[c.R.Intn(6)], 1+c.R.Intn(20000))
 				doc := `{"a":[1,2,3],"` + long + `":"` + long + `","n":` + big + `.` + big + `e` + big[:1+(len(big)-1)%5] + `}`
 				o := optFromIndex(c.R.Intn(256))
-				o.ensure = false // index tokens beyond 10^4 are outside the stated domain under EnsurePathExistsOnAdd
+				// index tokens beyond 10^4 are outside the stated domain under EnsurePathExistsOnAdd (the padding is
+				// quadratic) - but only those that are indices at all: a digit string that does not fit an int, or
+				// a token that is not a number, cannot ask for padding and must simply be refused or be a name
+				if _, aerr := strconv.Atoi(strings.TrimSpace(idxTok)); aerr == nil {
+					o.ensure = false
+				}
 				kind := allKinds[c.R.Intn(6)]
-				patch := PatchText([]string{OpText(kind, "/a/"+idxTok, "/a/"+idxTok, "1", kind == "add" || kind == "replace" || kind == "test")})
+				base := "/a/"
+				if c.R.Intn(3) == 0 {
+					base = "/zz/" // a parent that does not exist (created under EnsurePathExistsOnAdd)
+				}
+				if c.R.Intn(4) == 0 {
+					idxTok += "/b"
+				}
+				patch := PatchText([]string{OpText(kind, base+idxTok, base+idxTok, "1", kind == "add" || kind == "replace" || kind == "test")})
 				applyAllV5(c, doc, patch, o)
 				applyAllLegacy(c, doc, patch, o)
 				pairAll(c, doc, doc, idx%2 == 0)
